@@ -150,7 +150,15 @@ func genDraft(t *rapid.T) txnDraft {
 		case "bad_sig":
 			if len(tx.Sigs) > 0 {
 				i := rapid.IntRange(0, len(tx.Sigs)-1).Draw(t, "which")
-				switch rapid.IntRange(0, 6).Draw(t, "how") {
+				switch rapid.IntRange(0, 8).Draw(t, "how") {
+				case 7, 8: // r is a tiny number (anyone can write that into a signature); recovery starts from the point with that x
+					for j := 0; j < 32; j++ {
+						tx.Sigs[i][j] = 0
+					}
+					rv := rapid.IntRange(1, 4096).Draw(t, "tinyr")
+					tx.Sigs[i][30], tx.Sigs[i][31] = byte(rv>>8), byte(rv)
+					tx.Sigs[i][32] &= 0x3f // keep s low
+					tx.Sigs[i][64] = byte(rapid.IntRange(0, 1).Draw(t, "tinyrecid"))
 				case 0:
 					copy(tx.Sigs[i][:], rapid.SliceOfN(rapid.Byte(), 65, 65).Draw(t, "raw"))
 				case 1:
